@@ -218,12 +218,14 @@ ADDED = {
         "A adj(A) = det(A) I (thorough).",
 }
 
+ADDED2 = {'C01': ' Coordinates stored as uint8/16/32/64, int16/32, float32; all pairwise joins / meets of two collections through expand_dims.', 'C03': ' Conic constructors (from_points, from_tangent, from_crossratio, from_foci) and polytope == (same cycle from another start / reversed, per-vertex factors) under rescaling; Rescale replayed over the whole operation table shared with Purity.tla (266 operations, rescaled workspaces and one object at a time; harness/tableinv.py).', 'C04': ' Triangle collections; membership of points known to lie inside / on an edge / at a vertex / outside, with negative and mixed representatives.', 'C05': ' Kronecker deltas up to n = 9.', 'C06': ' Group laws of identity(), t**0, t.inverse()*t after an earlier identity was edited in place.', 'C07': ' Pencils of lines and planes over every cross-ratio case (vertices sent to infinity, four argument orders; invariant PencilCRInvariant).', 'C08': ' Rotation axes given as long vectors stored in int16/int32/int64/uint16.', 'C09': ' Task angld2: a line and a direction (both argument orders, rescaled, collections; invariant AngleDirectionLaws).', 'C10': ' Lines of 3-space used and then moved by exact isometries (project, base_point, basis_matrix, perpendicular).', 'C12': ' Every operation asked first in a new interpreter (harness/fresh.py) and the cache-reading operations in all ordered pairs from empty caches; every answer overwritten in place and asked again on a new workspace.', 'C13': ' from_points far out on the integer lattice (x90, x400, integer dtype).', 'C14': ' tangent(at) at the (possibly complex) points intersect returns and at exact Gaussian-integer points.', 'C15': ' Collections of plane pairs of 3-space, alone and with irreducible / non-degenerate quadrics mixed in.', 'C17': ' Regular polygons of 3-space about ten axis vectors (any length, any direction).', 'C18': ' In-plane segments / lines mixed into 3D collections (single polygon and PolygonCollection, both orders); collections after all their properties were read.', 'C19': ' Tasks tprod (tensor_product for every index-type layout; invariant TensorProductAxes) and expand (expand_dims for every layout incl. a collection axis behind a tensor index; invariant ExpandKeepsTypes).', 'C20': " Task cubic: every polynomial of an integer coefficient box (cubic / quadratic / linear), oracle = Vieta's relations, strata = the case analysis of Cardano's method (invariants VietaOnChosenRoots, DiscriminantOnChosenRoots, DiscriminantSound)."}
+
 checks = []
 for p in props:
     c = CLAIMS.get(p["id"])
     if not c:
         continue
-    c = dict(c, text=c["text"] + ADDED.get(p["id"], ""), design=c["design"] + "; 0.3-0.5")
+    c = dict(c, text=c["text"] + ADDED.get(p["id"], "") + ADDED2.get(p["id"], ""), design=c["design"] + "; 0.3-0.5")
     checks.append({
         "property_id": p["id"],
         "quick_cmd": f"./bin/check {p['id']} quick",
